@@ -3,7 +3,7 @@ import itertools
 from .mirtab import Engine, Undecided, check_partition, term_str, C
 from .extract import (extract_all_layouts, ScanTable, scancode_impls, initial_state_of, leaf_where, writers_of, public_roots, caller_map,
                       iter_bodies, PANIC, span_line, conc, value_atoms)
-from .rules_event import find_generic_method, field_index, _St
+from .rules_event import find_generic_method, field_index, _St, KNOWN_API
 from .rules_ps2 import find_method, PS2
 
 
@@ -215,11 +215,15 @@ def check_no_panic(ctx, rep, tier):
             stage_opaque.add(find_method(ctx, adt, nm)['path'])
     ed_methods = [f for f in handwritten if (f.get('impl_self') or {}).get('path') == 'EventDecoder' and not f.get('impl_trait')]
     for f in ed_methods:
+        if f['vis'] != 'pub':
+            continue    # private helpers are analysed where the public operations inline them (with the arguments they really get)
         run_simple(ctx, rep, f['path'], 'EventDecoder::' + f['name'])
         covered_fns.add(f['path'])
     stage_opaque |= {f['path'] for f in ed_methods}
     kb_methods = [f for f in handwritten if (f.get('impl_self') or {}).get('path') == 'Keyboard' and not f.get('impl_trait')]
     for f in kb_methods:
+        if f['vis'] != 'pub':
+            continue
         run_simple(ctx, rep, f['path'], 'Keyboard::' + f['name'], opaque=stage_opaque)
         covered_fns.add(f['path'])
     # ---- 5. layouts ----------------------------------------------------------
@@ -264,6 +268,12 @@ def check_no_panic(ctx, rep, tier):
             run_simple(ctx, rep, f['path'], f['path'])
             covered_fns.add(f['path'])
         except Undecided as u:
+            if f['name'] not in KNOWN_API and not f.get('impl_trait'):
+                # an addition to the public API is not one of the operations the statement lists; when it cannot be
+                # analysed it is noted, not judged (it is still inlined wherever a listed operation calls it)
+                rep.note('new public function %s could not be analysed (API extension, not judged): %s' % (f['path'], str(u)[:160]))
+                covered_fns.add(f['path'])
+                continue
             rep.finding('C08 undecided %s' % f['path'], 'public function could not be analysed: %s' % u)
     # inventory: every trap site must lie in a covered function (or a private helper inlined into one)
     helpers = {f['path'] for f in handwritten if f['vis'] != 'pub' and not f.get('impl_trait')}
